@@ -10,6 +10,7 @@ import (
 	"github.com/meshplus/bitxhub-model/pb"
 	"github.com/meshplus/bitxhub/verif/harness"
 	"github.com/meshplus/bitxhub/verif/model"
+	ethkittypes "github.com/meshplus/eth-kit/types"
 )
 
 // mixGen generates blocks mixing every transaction kind the node accepts. It is feedback driven
@@ -30,6 +31,63 @@ type mixGen struct {
 	kinds    map[string]int
 	drained  bool
 	blocked  map[string]bool // pair -> its destination currently black-lists its source (as far as the generator knows)
+	ethFunded    bool
+	ethCtr       int64
+	ethContracts []*types.Address
+}
+
+// ethTx draws one Ethereum-format transaction: plain transfers, deployments, calls, and the rejections
+// the EVM makes before (nonce, cannot buy gas) and after (intrinsic gas, value) it has bought the gas.
+func (g *mixGen) ethTx() pb.Transaction {
+	r, w := g.rng, g.w
+	sender := []string{"eth-0", "eth-1"}[r.Intn(2)]
+	// every transaction gets a gas price of its own: nonces recur after replays and gaps, and the identical
+	// transaction in two blocks is something ordering rules out (the by-hash indexes hold one position per hash)
+	g.ethCtr++
+	price := big.NewInt(1000 + g.ethCtr)
+	other := harness.EthAddr(harness.EthKey("eth-receiver"))
+	// init code: returns the 10-byte runtime (PUSH1 0x2a; MSTORE; RETURN 32 bytes)
+	deploy := []byte{0x60, 0x0a, 0x60, 0x0c, 0x60, 0x00, 0x39, 0x60, 0x0a, 0x60, 0x00, 0xf3, 0x60, 0x2a, 0x60, 0x00, 0x52, 0x60, 0x20, 0x60, 0x00, 0xf3}
+	switch x := r.Intn(100); {
+	case x < 25:
+		g.note("eth-transfer")
+		return w.Eth(sender, 0, 21000, price, big.NewInt(int64(1+r.Intn(1000))), other, nil)
+	case x < 37:
+		g.note("eth-intrinsic-gas-too-low")
+		return w.Eth(sender, 0, 20000, price, big.NewInt(0), other, nil)
+	case x < 49:
+		g.note("eth-value-exceeds-balance")
+		return w.Eth(sender, 0, 21000, price, new(big.Int).Exp(big.NewInt(10), big.NewInt(30), nil), other, nil)
+	case x < 57:
+		g.note("eth-cannot-buy-gas")
+		return w.Eth(sender, 0, 21000, new(big.Int).Add(new(big.Int).Exp(big.NewInt(10), big.NewInt(30), nil), price), big.NewInt(0), other, nil)
+	case x < 63:
+		g.note("eth-nonce-replayed")
+		// a different transaction with an already used nonce (the identical transaction in two blocks is
+		// something ordering rules out, C20; the by-hash indexes can only hold one position per hash)
+		g.ethCtr++
+		return w.Eth(sender, -1, 21000, price, big.NewInt(1000000+g.ethCtr), other, nil)
+	case x < 68:
+		g.note("eth-nonce-gap")
+		g.ethCtr++
+		return w.Eth(sender, 1, 21000, price, big.NewInt(1000000+g.ethCtr), other, nil)
+	case x < 80:
+		g.note("eth-deploy")
+		return w.Eth(sender, 0, 200000, price, big.NewInt(0), nil, deploy)
+	case x < 86:
+		g.note("eth-deploy-reverting")
+		return w.Eth(sender, 0, 200000, price, big.NewInt(0), nil, []byte{0x60, 0x00, 0x60, 0x00, 0xfd})
+	case x < 92:
+		g.note("eth-deploy-out-of-gas")
+		return w.Eth(sender, 0, 53100, price, big.NewInt(0), nil, deploy)
+	default:
+		to := other
+		if len(g.ethContracts) > 0 {
+			to = g.ethContracts[r.Intn(len(g.ethContracts))]
+		}
+		g.note("eth-call")
+		return w.Eth(sender, 0, 60000, price, big.NewInt(0), to, []byte{1, 2, 3, 4})
+	}
 }
 
 type mixGroup struct {
@@ -59,6 +117,11 @@ func (g *mixGen) absorb(txs []pb.Transaction, res *harness.BlockResult) {
 	for i, rc := range res.Receipts {
 		if rc.Status != pb.Receipt_SUCCESS || i >= len(txs) {
 			continue
+		}
+		if rc.ContractAddress != nil && len(g.ethContracts) < 4 {
+			if _, isEth := txs[i].(*ethkittypes.EthTransaction); isEth {
+				g.ethContracts = append(g.ethContracts, rc.ContractAddress)
+			}
 		}
 		if pid := harness.ProposalID(rc); pid != "" && strings.Contains(string(rc.Ret), "proposal_id") {
 			known := false
@@ -118,6 +181,17 @@ func (g *mixGen) genBlock(h uint64) []pb.Transaction {
 				txs = append(txs, t)
 				g.note("gov-service-blacklist-toggle")
 			}
+		}
+	}
+	// ---- Ethereum-format transactions (EVM): funded once, then a few per block now and then
+	if !g.ethFunded {
+		g.ethFunded = true
+		for _, s := range []string{"eth-0", "eth-1"} {
+			txs = append(txs, w.Transfer(harness.User(0), harness.EthAddr(harness.EthKey(s)), "1000000000000"))
+		}
+	} else if r.Intn(3) == 0 {
+		for k := 1 + r.Intn(3); k > 0; k-- {
+			txs = append(txs, g.ethTx())
 		}
 	}
 	for i := 0; i < n; i++ {
